@@ -3,7 +3,7 @@
    Line shapes:
      {"a":"reset","c":i,"chain":[..],"res":"ok","st":Store}
      {"a":<transition>,"c":i,"k":pos,"res":class,"st":Store}      (st = {} when the transition failed)
-   Store = {entry: {"live":class, "r":{attr:obs}, "n":{attr:obs}}} *)
+   Store = {entry: {"live":class, "r":{attr:obs}, "n":{attr:obs}, "p":{attr:[[outer,inner]..]}}} *)
 EXTENDS KStoreVal, Json, IOUtils
 Rec == ndJsonDeserialize(IOEnv.TRACE)
 VARIABLE l
